@@ -129,3 +129,12 @@ func Keys[K comparable, V any](m map[K]V, site string) []K {
 	}
 	return out
 }
+
+// DiscardHook, when set, sees every object handed to value.Discard before it goes back to its pool.
+var DiscardHook func(p any)
+
+func OnDiscard(p any) {
+	if DiscardHook != nil {
+		DiscardHook(p)
+	}
+}
